@@ -634,10 +634,21 @@ def render_case(L, case, tris):
             m = "(MTempArray %s)" % common.clist([qlit(t) for t in ts])
         else:
             m = "(MTempScalar %s)" % qlit(med["temp"])
+    # oracle np.exp: argument (exact, as the model computes it from the
+    # documented constants) -> value
     dtab = []
     if px:
-        dl = ref_delta(L.feat, np.array(x, dtype=float), px)
-        dtab = sorted(set(zip(x, [float(v) for v in dl])))
+        fpx = Fraction(float(px))
+        sc = (Fraction(34, 100) / fpx) ** L.pw
+        taus = ([Fraction(71, 10), Fraction(386, 10), Fraction(296)]
+                if L.feat == "area_um" else
+                [Fraction(40), Fraction(450), Fraction(6040)])
+        seen = {}
+        for xv in x:
+            for tau in taus:
+                key = -Fraction(float(xv)) * sc / tau
+                seen[key] = Fraction(math.exp(float(key)))
+        dtab = sorted(seen.items())
     return "mkCase (mkSetup %s %s %s) %s %s %s %s %s" % (
         qlit(cw), qlit(fr), qlit(px), m,
         common.clist(["(%s,%s)" % (qlit(a), qlit(b)) for a, b in zip(x, d)]),
